@@ -499,6 +499,8 @@ class SNum:
         return self._bin(o, lambda a, b: a - b, True)
 
     def __mul__(self, o):
+        if isinstance(o, (list, tuple)):
+            return SymRun(o, self)      # [0] * n with symbolic n
         return self._bin(o, lambda a, b: a * b)
     __rmul__ = __mul__
 
@@ -635,6 +637,16 @@ class SNum:
 
     def __repr__(self):
         return f'<SNum {str(self.t)[:60]}>'
+
+
+class SymRun:
+    """`seq * n` for a symbolic count n (only meaningful to containers that track lengths symbolically)"""
+    def __init__(self, seq, count):
+        self.seq = tuple(seq)
+        self.count = count
+
+    def __iter__(self):
+        raise Unsupported('iteration over a run of symbolic length')
 
 
 def _nonzero(t):
